@@ -134,6 +134,9 @@ func TestVerifC03(t *testing.T) {
 			case "base":
 				c := vClassifier(t, thr)
 				b := vMakeBase(r, r.Intn(5), docs, cd.doc, vVocab(c))
+				if r.Intn(3) == 0 {
+					b.text = vSpice(r, b.text, 10+r.Intn(40))
+				}
 				in := []byte(b.text)
 				if r.Intn(4) == 0 {
 					// notice lines and blank lines sprinkled in: exercises Copyright entries
